@@ -130,6 +130,10 @@ class Interp:
                         v = Val(z3.IntVal(0), NONE)
                     binds["result"] = self.coerce(v, rty, s, None, frame, spec=True) if v.ty.k != "tuple" else v
                 for cl in clauses["ensures"]:
+                    if cl.witness:
+                        binds = dict(binds)
+                        for wv, (wty, wexpr) in cl.witness.items():
+                            binds[wv] = self.coerce(self.spec_val(wexpr, s, frame, old=u.entry), u.T(wty), s, None, frame, spec=True)
                     g = self.spec(cl.text, s, frame, old=u.entry, binds=binds, assume=False)
                     self.oblige_split(s, g, "post", cl.label, cl.props)
             elif kind == "raise":
@@ -246,6 +250,14 @@ class Interp:
         for g, t in tg:
             alts.append(z3.And(g, ref == t) if g is not None else ref == t)
         u.oblige(st, z3.Or(*alts), "frame", key, u.contract.props | {"C14"}, where=where)
+        for (lm, bound, n) in getattr(u, "loop_frames", []):
+            tg = lm.get(key, [])
+            if tg == "*":
+                continue
+            alts = [ref >= bound]
+            for g, t in tg:
+                alts.append(z3.And(g, ref == t) if g is not None else ref == t)
+            u.oblige(st, z3.Or(*alts), "frame", "loop%d:%s" % (n, key), u.contract.props | {"C14"}, where=where)
 
     # ================================================================== spec helpers
     def spec(self, text, st, frame, old=None, entry=None, binds=None, assume=True):
@@ -535,7 +547,7 @@ class Interp:
         n = self.u.loop_id(frame, node)
         return self.reg.loops.get((frame.qname, n)), n
 
-    def havoc_loop(self, st, keys, names, frame):
+    def havoc_loop(self, st, keys, names, frame, loopmod=None, entry=None):
         u = self.u
         for nm in sorted(names):
             cur = st.locals.get(nm)
@@ -560,9 +572,10 @@ class Interp:
         if frame.fdef is u.fdef:
             r = z3.Int("fr_r")
             for k in sorted(keys):
-                if k == "next" or k.startswith("idx:"):
+                if k == "next":
                     continue
-                tg = u.mod.get(k, [])
+                tk = "elt:" + k[4:] if k.startswith("idx:") else k
+                tg = u.mod.get(tk, [])
                 if tg == "*":
                     continue
                 A = st.heap[k]
@@ -575,10 +588,38 @@ class Interp:
                 for g, t in tg:
                     conds.append(z3.Not(z3.And(g, r == t)) if g is not None else r != t)
                 st.pc.append(z3.ForAll([r], z3.Implies(z3.And(*conds), A[r] == A0[r]), qid=QID(), patterns=[A[r]]))
+        if loopmod is not None:
+            # loop-level frame: slots allocated before the loop and outside the loop's targets keep their loop-entry value
+            r = z3.Int("fr_r")
+            for k in sorted(keys):
+                if k == "next":
+                    continue
+                tk = "elt:" + k[4:] if k.startswith("idx:") else k
+                tg = loopmod.get(tk, [])
+                if tg == "*":
+                    continue
+                A = st.heap[k]
+                A0 = u.get_arr(entry, k, u.key_ty(k))
+                conds = [r > 0, r < entry.next]
+                for g, t in tg:
+                    conds.append(z3.Not(z3.And(g, r == t)) if g is not None else r != t)
+                st.pc.append(z3.ForAll([r], z3.Implies(z3.And(*conds), A[r] == A0[r]), qid=QID(), patterns=[A[r]]))
         # references held in locals stay below the allocation bound
         for nm, v in st.locals.items():
             if v.ty.k in ("ref", "list", "dict", "none") and not isinstance(v.t, tuple):
                 st.pc.append(v.t < st.next)
+
+    def run_framed(self, lm, entry, n, thunk):
+        u = self.u
+        if lm is None:
+            return thunk()
+        if not hasattr(u, "loop_frames"):
+            u.loop_frames = []
+        u.loop_frames.append((lm, entry.next, n))
+        try:
+            return thunk()
+        finally:
+            u.loop_frames.pop()
 
     def exec_while(self, s, st, frame):
         u = self.u
@@ -610,7 +651,8 @@ class Interp:
         for cl in L.invariants:
             self.oblige_split(st, self.spec(cl.text, st, frame, old=u.entry, entry=entry, binds=binds, assume=False), "inv-entry",
                               "loop%d.%s" % (n, cl.label), cl.props)
-        self.havoc_loop(st, keys, names, frame)
+        lm = self.compile_modifies(L.modifies, entry, frame, {}) if L.modifies is not None else None
+        self.havoc_loop(st, keys, names, frame, lm, entry)
         for cl in L.invariants:
             st.pc.append(self.spec(cl.text, st, frame, old=u.entry, entry=entry, binds=binds))
         v0 = None
@@ -623,7 +665,7 @@ class Interp:
         exit_st.pc.append(z3.Not(c))
         body_st = st.fork()
         body_st.pc.append(c)
-        outs = self.exec_block(s.body, body_st, frame)
+        outs = self.run_framed(lm, entry, n, lambda: self.exec_block(s.body, body_st, frame))
         res = [("next", exit_st, None)]
         for kind, s2, v in outs:
             if kind in ("next", "continue"):
@@ -718,7 +760,8 @@ class Interp:
         for cl in L.invariants:
             self.oblige_split(st, self.spec(cl.text, st, frame, old=u.entry, entry=entry, binds=b0, assume=False), "inv-entry",
                               "loop%d.%s" % (n, cl.label), cl.props)
-        self.havoc_loop(st, keys, names - _target_names(s.target), frame)
+        lm = self.compile_modifies(L.modifies, entry, frame, {}) if L.modifies is not None else None
+        self.havoc_loop(st, keys, names - _target_names(s.target), frame, lm, entry)
         for nm in _target_names(s.target):
             st.locals.pop(nm, None)
         k = fresh("k", I)
@@ -739,7 +782,7 @@ class Interp:
         body_st = st.fork()
         body_st.pc.append(k < cnt)
         body_st = bind_target(body_st, k)
-        outs = self.exec_block(s.body, body_st, frame)
+        outs = self.run_framed(lm, entry, n, lambda: self.exec_block(s.body, body_st, frame))
         res = [("next", exit_st, None)]
         for kind, s2, v in outs:
             if kind in ("next", "continue"):
@@ -921,6 +964,15 @@ class Interp:
                     if g is not None:
                         goal = z3.Implies(g, goal)
                     u.oblige(st, goal, "frame", "%s:%s" % (qname, k), u.contract.props | {"C14"}, where=where)
+                    for (lm, bound, ln) in getattr(u, "loop_frames", []):
+                        ltg = lm.get(k, [])
+                        if ltg == "*":
+                            continue
+                        alts = [t >= bound] + [(z3.And(g2, t == t2) if g2 is not None else t == t2) for g2, t2 in ltg]
+                        goal = z3.Or(*alts)
+                        if g is not None:
+                            goal = z3.Implies(g, goal)
+                        u.oblige(st, goal, "frame", "loop%d:%s:%s" % (ln, qname, k), u.contract.props | {"C14"}, where=where)
             keys = set(tg)
             if not c.pure:
                 keys.add("next")
@@ -943,7 +995,13 @@ class Interp:
             else:
                 res = Val(z3.IntVal(0), NONE)
             for e in cl["ensures"]:
-                st.pc.append(self.spec(e.text, st, fr2, old=pre, binds=binds))
+                b2 = binds
+                if e.witness:
+                    b2 = dict(binds)
+                    for wv, (wty, wexpr) in e.witness.items():
+                        wt = u.T(wty)
+                        b2[wv] = Val(fresh("wit_" + wv, sort_of(wt)), wt)
+                st.pc.append(self.spec(e.text, st, fr2, old=pre, binds=b2))
         finally:
             st.locals = saved
         return res
